@@ -91,12 +91,17 @@ class Lifecycle(object):
     c.wrong_barrier = True
     return "foreign"
 
-  def error(self, c, xid, etype, code):
+  def error(self, c, answers_barrier, etype, code):
+    """an OFPT_ERROR arrived.  answers_barrier: the switch sent it in answer to the handshake's barrier
+    request itself (the scripted switch knows which of the controller's messages it is answering; the
+    controller can tell from the xid, and from the copy of the request in the error's data).  An error
+    answering any other message of the handshake (features/stats request, set_config, flow_mod) says
+    nothing about the barrier, whatever its type and code."""
     if c.lost or c.up:
       return None
     if c.barrier_xid is None or not c.got_features:
       return None
-    if xid == c.barrier_xid and etype == BAD_REQUEST and code == BAD_TYPE:
+    if answers_barrier and etype == BAD_REQUEST and code == BAD_TYPE:
       self._announce(c)
       return "up"
     return None
